@@ -116,6 +116,7 @@ class Index:
         from sa import canon
         self.renames = canon.recover(self.files)
         self.reference_methods = canon.reference_methods()
+        self.reference_attrs = canon.reference_attrs()
         self._attr_types = None
         for rel, (src, tree) in self.files.items():
             for node in tree.body:
@@ -165,6 +166,35 @@ class Index:
             if ts:
                 return next(iter(ts)) if len(ts) == 1 and None not in ts else None
         return None
+
+    def lacks_attr(self, cls, attr):
+        """True when no instance of package class `cls` can have attribute `attr`: the class family is closed (every base is a class of the
+        package or object) and nothing in it defines a method, property, class-level name or `self.<attr>` store of that name, and nothing
+        in the package sets it from outside (`<x>.<attr> = …`, setattr with a computed name)"""
+        cs = self.classes.get(cls)
+        if not cs or len(cs) != 1:
+            return False
+        fam = self.mro(cls)
+        for c in fam:
+            if any(b not in self.classes and b not in ("object", "ABC") for b in c.bases) or "__getattr__" in c.methods or "__slots__" in c.class_assigns:
+                return False
+            if attr in c.methods or attr in c.properties or attr in c.class_assigns:
+                return False
+        if getattr(self, "_stored_attrs", None) is None:
+            self._stored_attrs = set()
+            self._dyn_setattr = False
+            for rel, (src, tree) in self.files.items():
+                for n in ast.walk(tree):
+                    if isinstance(n, ast.Attribute) and isinstance(n.ctx, ast.Store):
+                        self._stored_attrs.add(n.attr)
+                    elif isinstance(n, ast.Call) and isinstance(n.func, ast.Name) and n.func.id == "setattr" and len(n.args) >= 2:
+                        if isinstance(n.args[1], ast.Constant) and isinstance(n.args[1].value, str):
+                            self._stored_attrs.add(n.args[1].value)
+                        else:
+                            self._dyn_setattr = True
+                    elif isinstance(n, ast.Attribute) and n.attr == "__dict__":
+                        self._dyn_setattr = True
+        return attr not in self._stored_attrs and not self._dyn_setattr
 
     def _module_rel(self, rel, module, level):
         """relpath of the package module `module` imported from file rel (level = leading dots), or None"""
